@@ -590,3 +590,8 @@ func maxWager(s *pokerface.GameState) int64 {
 	}
 	return m
 }
+
+// a getter that rewrites the state (for example the offered actions of the seat to act)
+func (m *C04Mon) QueryChanged(h *Hand, what string) {
+	h.Fail("C04/state-changed-without-operation", "by=read-only-query", what)
+}
